@@ -35,6 +35,7 @@ from mc.core import digest
 
 PROPERTY = "C20"
 LEVEL = "model_checking"
+OWN_SCHEDULING = True      # this check drives the pools itself
 ENGINES = ["E3-explicit-state-history-search"]
 TECHNIQUE = ("explicit-state search over call histories on a shared argument pool: every public callable is a "
              "transition, state = pool arrays + module globals + global RNG, invariant = self-loop and result equal "
